@@ -646,3 +646,59 @@ impl Prop for C16 {
         vec!["cross-thread-drop", "zero-capacity-vec", "invalid-utf8"]
     }
 }
+
+/// Fuzz decoder: libFuzzer bytes -> a case (the byte payloads of the ops are taken verbatim from the input,
+/// so that the fuzzer mutates the UTF-8 edge cases directly).
+pub fn decode(u: &mut arbitrary::Unstructured) -> arbitrary::Result<Value> {
+    let n = u.int_in_range(1..=30)?;
+    let mut ops = Vec::new();
+    for _ in 0..n {
+        let payload = |u: &mut arbitrary::Unstructured| -> arbitrary::Result<Vec<u8>> {
+            let len = u.int_in_range(0..=40)?;
+            Ok(u.bytes(len.min(u.len()))?.to_vec())
+        };
+        let op = match u.int_in_range(0..=10)? {
+            0 | 1 => {
+                let c = match u.int_in_range(0..=11)? {
+                    0 => BCtor::Slice,
+                    1 => BCtor::Vec { extra_cap: u.int_in_range(0..=20)? },
+                    2 => BCtor::Boxed,
+                    3 => BCtor::CowBorrowed,
+                    4 => BCtor::CowOwned { extra_cap: u.int_in_range(0..=20)? },
+                    5 => BCtor::Iter,
+                    6 => BCtor::IterHint { delta: u.int_in_range(-3..=3)?, exact: u.arbitrary()? },
+                    7 => BCtor::FromRef,
+                    8 => BCtor::DeBytes,
+                    9 => BCtor::DeByteBuf { extra_cap: u.int_in_range(0..=20)? },
+                    10 => BCtor::DeStr,
+                    _ => BCtor::DeString,
+                };
+                Op::NewBytes(c, payload(u)?)
+            }
+            2 | 3 => {
+                let c = match u.int_in_range(0..=9)? {
+                    0 => SCtor::FromUtf8 { vec_backed: u.arbitrary()? },
+                    1 => SCtor::FromString { extra_cap: u.int_in_range(0..=20)? },
+                    2 => SCtor::FromStr,
+                    3 => SCtor::CowBorrowed,
+                    4 => SCtor::CowOwned,
+                    5 => SCtor::DeStr,
+                    6 => SCtor::DeString,
+                    7 => SCtor::DeBytes,
+                    8 => SCtor::DeByteBuf,
+                    _ => SCtor::Json,
+                };
+                Op::NewStr(c, payload(u)?)
+            }
+            4 => Op::Clone(u.arbitrary()?),
+            5 => Op::Drop(u.arbitrary()?),
+            6 => Op::Compare(u.arbitrary()?, u.arbitrary()?),
+            7 => Op::CompareSlice(u.arbitrary()?, payload(u)?),
+            8 => Op::HashIt(u.arbitrary()?),
+            9 => Op::IntoBytes(u.arbitrary()?),
+            _ => Op::ToStringOp(u.arbitrary()?),
+        };
+        ops.push(op);
+    }
+    Ok(to_case(&Case { ops }))
+}
